@@ -36,8 +36,11 @@ def snapshot(root: str) -> Dict[str, str]:
             if fn.endswith(".pyc"):
                 continue
             p = os.path.join(dp, fn)
-            with open(p, "rb") as f:
-                out[os.path.normpath(os.path.join(rel, fn))] = hashlib.sha256(f.read()).hexdigest()
+            try:
+                with open(p, "rb") as f:
+                    out[os.path.normpath(os.path.join(rel, fn))] = hashlib.sha256(f.read()).hexdigest()
+            except OSError as e:      # e.g. a dangling symbolic link: what a reader of this path gets is an error
+                out[os.path.normpath(os.path.join(rel, fn))] = "unreadable:%s" % type(e).__name__
     return out
 
 
